@@ -38,7 +38,7 @@ type bnd struct {
 
 func bounds(quick bool) bnd {
 	if quick {
-		return bnd{2, []string{"a", "b"}}
+		return bnd{3, []string{"a", "b"}}
 	}
 	return bnd{3, []string{"a", "b", "c"}}
 }
@@ -335,7 +335,7 @@ func replay(c *vlib.Ctx, w string) {
 func init() {
 	vlib.Register(&vlib.Check{
 		ID: "C25", Engine: "E3",
-		Rule:   "two options are defined through the Go API (verif/loc non-global, verif/glo Global, default 'd'); breadth-first search over histories of {config get, config set <value>, config default} for both options, the same statements inside an if/foreach block, `call` (enter a function defined for that site) and `ret`, call depth <= D, values V (quick D=2 V={a,b}; thorough D=3 V={a,b,c}); each history is rendered as a program (open calls are closed at the end, every open scope reads both options while unwinding = canonical state), run from a reset session through the session-level fork the interactive shell uses, and the printed values are compared with a frame model: a call starts without overrides and reads through to the session value or default, a non-global set/default in a call stays in that call (blocks share it), global options and session-level sets are seen everywhere; successors with a new canonical state are enqueued until a fixpoint; non-trivial = the history contains a set or default executed inside a call",
+		Rule:   "two options are defined through the Go API (verif/loc non-global, verif/glo Global, default 'd'); breadth-first search over histories of {config get, config set <value>, config default} for both options, the same statements inside an if/foreach block, `call` (enter a function defined for that site) and `ret`, call depth <= D, values V (quick D=3 V={a,b}; thorough D=3 V={a,b,c}); each history is rendered as a program (open calls are closed at the end, every open scope reads both options while unwinding = canonical state), run from a reset session through the session-level fork the interactive shell uses, and the printed values are compared with a frame model: a call starts without overrides and reads through to the session value or default, a non-global set/default in a call stays in that call (blocks share it), global options and session-level sets are seen everywhere; successors with a new canonical state are enqueued until a fixpoint; non-trivial = the history contains a set or default executed inside a call",
 		Shards: func(string) int { return 1 },
 		Run:    run,
 		Replay: replay,
